@@ -286,6 +286,8 @@ func (n *normalizer) eligibleReason(fn *types.Func, fd *ast.FuncDecl) string {
 		return "exported"
 	case anchorWords[fn.Name()]:
 		return "anchor word"
+	case n.pkg != nil && n.pkg.Name == "ast" && mentionsSelector(fd, "strings", "ToUpper"):
+		return "anchor by role (the upper-casing helper of the case-insensitive operators, under whatever name)"
 	case n.rec[fn]:
 		return "recursive"
 	case n.gen(fd.Pos()):
@@ -2170,4 +2172,18 @@ func (n *normalizer) propagateMethodValues(body *ast.BlockStmt) {
 		}
 		n.stats.MethodValues++
 	}
+}
+
+// mentionsSelector: the declaration's body contains the qualified identifier pkg.name.
+func mentionsSelector(fd *ast.FuncDecl, pkg, name string) bool {
+	found := false
+	ast.Inspect(fd, func(x ast.Node) bool {
+		if se, ok := x.(*ast.SelectorExpr); ok && se.Sel.Name == name {
+			if id, isId := se.X.(*ast.Ident); isId && id.Name == pkg {
+				found = true
+			}
+		}
+		return !found
+	})
+	return found
 }
